@@ -39,6 +39,10 @@ import CijProofs.Lemmas.GaussJordan
 import CijProofs.Lemmas.Voigt
 import CijProofs.Properties.C11
 import CijProofs.Properties.C17
+import Generated.FullModulusSpec
+import Generated.AdapterSpec
+import CijProofs.Lemmas.AdapterGuardSource
+import CijProofs.Lemmas.NonShearSource
 
 namespace Cij.C13
 
@@ -664,5 +668,40 @@ example : tableA.Ok ratFmt (.raw "V") [.mod (keyOfVoigt (1, 1)), .mod (keyOfVoig
   decide +kernel
 
 end Examples
+
+/-! #### ties shared with other properties
+
+The statement of this property also rests on code whose translation is owned by another property's file; the theorems are restated
+here so that this property's obligations are re-checked against those files too (a change there breaks THIS check's proof as well). -/
+
+/-- `full_modulus.py` / `_calculate_pressure_static` as translated on this run: default fit orders, degree offset, and the bodies of
+`fit_modulus`, `get_axial_strains`, `get_static_modulus`, `modulus_adiabatic`, `modulus_isothermal` are the ones the model implements -/
+theorem c13_full_modulus_is_source :
+    Generated.fitModulusDegOffset = 1 ∧ Generated.fullModulusBodiesCanonical = true ∧
+    Generated.fitModulusDefaultOrder = 2 ∧ Generated.staticPressureDefaultOrder = 3 := by decide
+
+/-- `qha_adapter.py` as translated on this run: the (T,V) interface hands over qha's (T,V) fields (`heat_capacity = cv_tv_au`,
+`pressures = p_tv_au`), the (T,P) interface `volumes = v_tp_bohr3`, `p_array = desired_pressures`; `read_input` passes the file's
+fields unchanged; the requested grid is accepted by exactly the guard the model implements -/
+theorem c13_qha_adapter_is_source {α : Type} [OfNat α 0] [LT α] [DecidableLT α] (pTvGpa : List (List α)) (desiredGpa : List α) :
+    Generated.qhaVolumeBaseAttrs.lookup "heat_capacity" = some "cv_tv_au" ∧
+    Generated.qhaVolumeBaseAttrs.lookup "pressures" = some "p_tv_au" ∧
+    Generated.qhaPressureBaseAttrs.lookup "volumes" = some "v_tp_bohr3" ∧
+    Generated.qhaPressureBaseAttrs.lookup "p_array" = some "desired_pressures" ∧
+    Generated.qhaReadInputCanonical = true ∧
+    Cij.AdapterGuardSource.evalGuard Generated.pressureGuard pTvGpa desiredGpa = some (Cij.V2P.desiredPressureStatus pTvGpa desiredGpa) :=
+  ⟨by decide, by decide, by decide, by decide, rfl, Cij.AdapterGuardSource.desiredPressureStatus_is_source pTvGpa desiredGpa⟩
+
+/-- `nonshear.py` as translated on this run: the model's isothermal and adiabatic values of both non-shear classes are the
+translated bodies (zero-point + thermal; isothermal + gap), for every scalar type -/
+theorem c13_nonshear_is_source {α : Type} [Cij.NonShear.Scalar α] [Add α] [Sub α] [Mul α] [Div α] [Neg α]
+    (c : Cij.NonShear.Consts α) (w : List α) (T P cv : α) (s : Cij.NonShear.VolSlice α) (a b : α) :
+    Cij.NonShear.valueAdiabaticLongAt c w T cv s =
+      Cij.NSExpr.evalBody (Cij.NSExpr.envAt c w T P cv s (Cij.NonShear.mgLong s) a b (Cij.NonShear.valueIsothermalLongAt c w T s)
+        (Cij.NonShear.isoToAdiaAt c.k c.hdk c.na T s.V cv (Cij.NonShear.mgLong s) s.freq w)) Generated.nsAdiaLong ∧
+    Cij.NonShear.valueAdiabaticOffAt c w T P cv s =
+      Cij.NSExpr.evalBody (Cij.NSExpr.envAt c w T P cv s (Cij.NonShear.mgOff s) a b (Cij.NonShear.valueIsothermalOffAt c w T P s)
+        (Cij.NonShear.isoToAdiaAt c.k c.hdk c.na T s.V cv (Cij.NonShear.mgOff s) s.freq w)) Generated.nsAdiaOff :=
+  ⟨Cij.NSExpr.valueAdiabaticLong_is_source c w T P cv s a b, Cij.NSExpr.valueAdiabaticOff_is_source c w T P cv s a b⟩
 
 end Cij.C13
